@@ -20,7 +20,11 @@ RULE = ("Hypothesis builds a series of 2..60 samples (all spacing kinds of twv.g
         "all four as-ratio flag combinations (flags passed by keyword, positionally or left at their default), "
         "ordered so that left < right after conversion; Weaver.truncate_by_value on a fresh object and on an "
         "object whose working series lives on a different grid than the reference (same span: all flags; other "
-        "span: absolute bounds); slice_by_value with start / stop in {omitted, None, a sample} and start <= stop; "
+        "span: absolute bounds); a quarter of the truncate series are ratio lattices (x0 + unit * k, k in 0..2**q) and "
+        "the ratio kind 'rlands' picks an interior sample whose ratio converts back onto it without any rounding "
+        "(class ratio-lands-on-sample, left and right independently); slice_by_value with start / stop in "
+        "{omitted, None, a sample}, start <= stop and step in {omitted, 1, 2, 3, 4, 5} (stops aligned and not "
+        "aligned with the stride, with and without samples beyond the stop); "
         "slice_by_index with 0 <= start, stop <= len (or omitted / None) and steps in +-{1,2,3,7}; "
         "truncate_by_index with 0 <= start < stop <= len (or omitted / None); history: ONE Weaver (2..24 samples), "
         "1..5 rounds of 1..2 selector calls (slice_by_value / slice_by_index / truncate_by_value / truncate_by_index, "
@@ -37,8 +41,12 @@ ASSUMPTIONS = [
     "x strictly increasing; truncate bounds satisfy left < right after ratio conversion (the opposite is C20's "
     "business); exact rational evaluation of ratio*span + x[0], both neighbouring cuts accepted when the exact "
     "bound lies within 4 ulp (of the largest magnitude entering the expression) of a sample",
-    "slice_by_value: start / stop are samples, None or omitted, start <= stop, step left at 1 (the statement says "
-    "nothing about other steps or inverted value ranges)",
+    "the ambiguity band is dropped (exactly one cut accepted) when none of the three float operations of the "
+    "documented conversion ratio * (x[-1] - x[0]) + x[0] rounds, verified in rationals: the float bound then IS the "
+    "exact bound",
+    "slice_by_value: start / stop are samples, None or omitted, start <= stop (the statement says nothing about "
+    "inverted value ranges); steps 1..5: the samples with start <= x <= stop taken with the stride counted from "
+    "the first of them (Python slice semantics x[i0:i1+1:step])",
     "slice_by_index / truncate_by_index: indices inside 0..len; negative steps only with an explicit stop (the "
     "documented meaning of stop=None, 'length of the series', and Python's x[s:None:-k] differ); truncate_by_index "
     "with start < stop; the reference after truncate_by_index is not asserted (the 'same bounds' clause is about "
@@ -75,8 +83,35 @@ def exact_bound(x, v, as_ratio):
     x0, x1 = Fraction(x[0]), Fraction(x[-1])
     prod = Fraction(v) * (x1 - x0)
     b = prod + x0
+    if ratio_evaluates_exactly(x, v):
+        return b, Fraction(0)
     mag = max(abs(x0), abs(x1), abs(prod), abs(b))
     return b, 4 * Fraction(math.ulp(float(mag)))
+
+
+def ratio_evaluates_exactly(x, v):
+    """True when none of the three float operations of ratio * (x[-1] - x[0]) + x[0] rounds (checked in rationals):
+    then the float bound IS the exact bound (e.g. 0.25 of a span of 16 on an integer grid) and there is no rounding
+    to make allowance for - a bound that lands on a sample selects that sample and nothing else."""
+    x0, x1 = Fraction(x[0]), Fraction(x[-1])
+    span_f = float(x1 - x0)
+    if Fraction(span_f) != x1 - x0:
+        return False
+    prod_f = float(v) * span_f
+    if Fraction(prod_f) != Fraction(v) * (x1 - x0):
+        return False
+    return Fraction(prod_f + float(x[0])) == Fraction(v) * (x1 - x0) + x0
+
+
+def landing_ratios(x):
+    """{i: r} for the interior samples x[i] that the float ratio r = (x[i]-x[0])/(x[-1]-x[0]) hits exactly, without any
+    rounding in r * (x[-1] - x[0]) + x[0]"""
+    out = {}
+    for i in range(1, len(x) - 1):
+        r = (x[i] - x[0]) / (x[-1] - x[0])
+        if ratio_evaluates_exactly(x, r) and Fraction(r) * (Fraction(x[-1]) - Fraction(x[0])) + Fraction(x[0]) == Fraction(x[i]):
+            out[i] = r
+    return out
 
 
 def last_le(fx, q):
@@ -192,8 +227,16 @@ def draw_bound(draw, x, as_ratio):
     i = draw(st.integers(0, n - 1))
     x0, x1 = x[0], x[-1]
     if as_ratio:
-        kind = draw(st.sampled_from(["r0", "r1", "rsample", "rdyadic", "rin", "rin", "rneg", "rbig"]))
-        if kind == "r0":
+        kind = draw(st.sampled_from(["r0", "r1", "rsample", "rdyadic", "rin", "rin", "rneg", "rbig", "rlands", "rlands",
+                                     "rlands"]))
+        lands = landing_ratios(x) if kind == "rlands" else {}
+        if kind == "rlands" and lands:
+            # ratio-lands-on-sample: the ratio of an interior sample that converts back onto it without rounding
+            keys = sorted(lands)
+            v = lands[draw(st.sampled_from([keys[0], keys[-1], keys[len(keys) // 2]] + keys))]
+        elif kind == "rlands":
+            kind, v = "rdyadic", draw(st.sampled_from([0.5, 0.25, 0.75, 0.125, 0.875]))
+        elif kind == "r0":
             v = draw(st.sampled_from([0.0, 0]))
         elif kind == "r1":
             v = draw(st.sampled_from([1.0, 1]))
@@ -231,6 +274,29 @@ def draw_bound(draw, x, as_ratio):
     else:
         v = x1 + draw(st.one_of(st.sampled_from([0.5, 1.0, 100.0]), fl(0.0, 10.0)))
     return kind, v
+
+
+@st.composite
+def ratio_lattice_series(draw, ctx):
+    """x[0] + unit * k, k a subset of 0..2**q containing both ends: every sample's ratio k / 2**q is a dyadic float and
+    converts back onto the sample without rounding (integer grids with a power-of-two span and their scaled copies)."""
+    q = draw(st.integers(2, 5))
+    big = 2 ** q
+    inner = draw(st.lists(st.integers(1, big - 1), unique=True, min_size=1, max_size=min(big - 1, ctx.pick(38, 58))))
+    ks = [0] + sorted(inner) + [big]
+    unit = draw(st.sampled_from([1, 1, 1, 2, 4, 3, 5, 60, 1024, 0.5, 0.25, 0.375]))
+    x0 = draw(st.one_of(st.integers(-64, 64), st.integers(-64, 64).map(lambda k: k / 8)))
+    x = [x0 + unit * k for k in ks]
+    as_int = all(float(v).is_integer() for v in x) and draw(st.booleans())
+    x = [int(v) for v in x] if as_int else [float(v) for v in x]
+    return dict(x=x, y=draw(ys(len(x)))["y"], xkind="ratio-lattice-int" if as_int else "ratio-lattice", ykind="?",
+                xint=as_int, as_list=draw(st.integers(0, 4)) == 0)
+
+
+def truncate_series(draw, ctx):
+    if draw(st.integers(0, 3)) == 0:
+        return draw(ratio_lattice_series(ctx))
+    return draw(series(2, ctx.pick(40, 60)))
 
 
 def draw_request(draw, x, allow_ratio=True):
@@ -278,12 +344,19 @@ def call_truncate(fn, req, *lead):
 
 
 def request_classes(x, req, prefix=""):
-    lo, _ = exact_bound(x, req["left"], req["lr"])
-    hi, _ = exact_bound(x, req["right"], req["rr"])
+    lo, tl = exact_bound(x, req["left"], req["lr"])
+    hi, tr = exact_bound(x, req["right"], req["rr"])
     wl, wr = where(x, lo), where(x, hi)
     cls = {f"{prefix}left:{wl}", f"{prefix}right:{wr}", f"flags:{'R' if req['lr'] else 'A'}{'R' if req['rr'] else 'A'}",
            f"lkind:{req['lkind']}", f"rkind:{req['rkind']}", f"style:{req['style']}"}
     nt = wl in ("offgrid", "first", "last") or wr in ("offgrid", "first", "last")
+    for side, flag, w_, t in (("left", req["lr"], wl, tl), ("right", req["rr"], wr, tr)):
+        if flag and t == 0:
+            cls.add(f"{prefix}{side}:ratio-evaluates-exactly")
+            if w_ == "sample":
+                cls.add(f"{prefix}{side}:ratio-lands-on-sample")
+                cls.add("ratio-lands-on-sample")
+                nt = True
     return cls, nt
 
 
@@ -310,7 +383,7 @@ def result_classes(n, a, b):
 
 @st.composite
 def truncate_case(draw, ctx):
-    s = draw(series(2, ctx.pick(40, 60)))
+    s = truncate_series(draw, ctx)
     return dict(s, req=draw_request(draw, s["x"]))
 
 
@@ -339,7 +412,7 @@ def truncate_body(ctx, case):
 
 @st.composite
 def weaver_truncate_case(draw, ctx):
-    s = draw(series(2, ctx.pick(40, 60)))
+    s = truncate_series(draw, ctx)
     x, y = s["x"], s["y"]
     case = dict(xr=x, yr=y, xw=None, yw=None, xkind=s["xkind"], xint=s["xint"], as_list=s["as_list"], grid="fresh")
     allow_ratio = True
@@ -413,7 +486,7 @@ def slice_value_case(draw, ctx):
     sk, ek = draw(st.sampled_from(kinds)), draw(st.sampled_from(kinds))
     style = draw(st.sampled_from(["kw", "pos"])) if OMIT not in (sk, ek) else "kw"
     return dict(s, start_kind=sk, start_i=i, stop_kind=ek, stop_i=j, style=style,
-                step=draw(st.sampled_from([OMIT, OMIT, 1])), as_float=draw(st.booleans()))
+                step=draw(st.sampled_from([OMIT, 1, 2, 2, 3, 3, 4, 5])), as_float=draw(st.booleans()))
 
 
 def slice_value_body(ctx, case):
@@ -437,22 +510,30 @@ def slice_value_body(ctx, case):
             if kind == "none":
                 kw[side] = None
             cls.add(f"{side}:{kind}")
+    step = 1
     if case["step"] != OMIT:
-        kw["step"] = case["step"]
-        cls.add("step=1 given")
+        step = kw["step"] = case["step"]
+    cls.add(f"step:{case['step']}")
+    text = f"slice_by_value({', '.join(f'{k}={v!r}' for k, v in sorted(kw.items()))}) on {n} samples"
     if case["style"] == "pos":
-        got = w.slice_by_value(kw.pop("start"), kw.pop("stop"), **kw)
+        pos = [kw.pop("start"), kw.pop("stop")] + ([kw.pop("step")] if "step" in kw and case["start_i"] % 2 else [])
+        got = w.slice_by_value(*pos, **kw)
     else:
         got = w.slice_by_value(**kw)
-    want = [(u, v) for u, v in zip(x, y) if lo <= u <= hi]
-    check_exact(f"slice_by_value({', '.join(f'{k}={v!r}' for k, v in sorted(kw.items()))})",
-                pair("slice_by_value", got), [u for u, _ in want], [v for _, v in want])
+    # the samples with start <= x <= stop, taken with the stride counted from the first of them
+    inside = [k for k, u in enumerate(x) if lo <= u <= hi]
+    want = [(x[k], y[k]) for k in inside[::step]]
+    check_exact(text, pair("slice_by_value", got), [u for u, _ in want], [v for _, v in want])
+    if step > 1 and inside:
+        aligned = (inside[-1] - inside[0]) % step == 0
+        cls.add("stride:" + ("stop-aligned" if aligned else "stop-not-aligned")
+                + ("" if inside[-1] == n - 1 else ",samples-beyond-stop"))
     nt = any(c in cls for c in ("start:first", "start:last", "start:omit", "start:none", "stop:first", "stop:last",
                                 "stop:omit", "stop:none"))
     cls |= series_classes(case, x)
     cls.add("keeps:whole" if len(want) == n else "keeps:one-sample" if len(want) == 1 else "keeps:proper-part")
     cls.add("style:" + case["style"])
-    ctx.record(case, cls, nt)
+    ctx.record(case, cls, nt or step > 1)
 
 
 # ---- Weaver.slice_by_index ------------------------------------------------------------------------------------------------
@@ -552,7 +633,7 @@ def hist_selector(draw, favourite=None):
     d = dict(op=op)
     if op == "slice_value":
         ends = st.one_of(st.sampled_from([OMIT, "none", 0, -1]), k, k)
-        d.update(start=draw(ends), stop=draw(ends))
+        d.update(start=draw(ends), stop=draw(ends), step=draw(st.sampled_from([OMIT, OMIT, 1, 2, 3, 4, 5])))
     elif op == "slice_index":
         step = draw(st.sampled_from([OMIT, 1, 2, 3, 7, -1, -2, -3, -7]))
         d.update(start=draw(st.one_of(st.just(OMIT), k, k)), step=step,
@@ -699,7 +780,10 @@ def _select(ctx, w, op, cur, ref, cls):
             idx["start"], idx["stop"] = idx["stop"], idx["start"]
         kw.update({k: x[i] for k, i in idx.items()})
         lo, hi = x[idx["start"]] if "start" in idx else -math.inf, x[idx["stop"]] if "stop" in idx else math.inf
-        want = [(u, v) for u, v in zip(x, y) if lo <= u <= hi]
+        step = op.get("step", OMIT)
+        if step != OMIT:
+            kw["step"] = step
+        want = [(u, v) for u, v in zip(x, y) if lo <= u <= hi][::1 if step == OMIT else step]
         text = f"slice_by_value({', '.join(f'{k}={v!r}' for k, v in sorted(kw.items()))})"
         check_exact(text, pair("slice_by_value", w.slice_by_value(**kw)), [u for u, _ in want], [v for _, v in want])
     elif name == "slice_index":
